@@ -423,7 +423,7 @@ def with_banks(rng, items, prob, sizes):
             unit = rng.choice([8, 8, 8, 16, 4])
             size_units = rng.choice(sizes)
             has_outp = rng.random() < 0.9
-            banks.append({"unit": unit, "addr": rng.choice([0, 0, 0x10, 0x100, 0x8000]), "size": size_units * unit,
+            banks.append({"unit": unit, "addr": rng.choice([0, 0, 0x10, 0x100, 0x8000, 0x8001, 0x11, 3]), "size": size_units * unit,
                           "outp": outp if has_outp else -1, "fill": rng.random() < 0.3,
                           "labelalign": (unit * 2) if rng.random() < 0.3 else 0})
             if has_outp:
@@ -437,6 +437,14 @@ def with_banks(rng, items, prob, sizes):
                 body.append({"k": "bank", "n": rng.randrange(1, nb + 1)})
             body.append(it)
         items = head + body
+        # #addr arguments on and around the ends of the bank they are written in
+        cur = None
+        for it in items:
+            if it["k"] in ("bankdef", "bank"):
+                cur = banks[it["n"] - 1]
+            elif it["k"] == "addr" and cur is not None and "e" not in it and rng.random() < 0.5:
+                units = cur["size"] // cur["unit"]
+                it["n"] = max(0, cur["addr"] + rng.choice([units - 1, units, units + 1, 0, -1, units // 2]))
     return items, banks
 
 
@@ -505,6 +513,32 @@ def render_pattern(pat):
     return "".join(out)
 
 
+def render_rule(r):
+    """one rule of a rule block: `pattern => production` (asm-block productions over several lines)"""
+    if r["prod"].get("k") != "asm":
+        return "    %s => %s\n" % (render_pattern(r["pat"]), genexpr.render(r["prod"]))
+    out = []
+    asg = r["prod"].get("assigns") or []
+    if asg:
+        out.append("    %s =>\n    {\n" % render_pattern(r["pat"]))
+        for a_ in asg:
+            out.append("      %s = %s\n" % (a_["name"], genexpr.render(a_["e"])))
+        out.append("      asm\n    {\n")
+    else:
+        out.append("    %s => asm\n    {\n" % render_pattern(r["pat"]))
+    for ln in r["prod"]["lines"]:
+        if ln["k"] == "label":
+            out.append("        %s:\n" % ln["name"])
+        else:
+            txt = []
+            for i, t in enumerate(ln["toks"]):
+                sp = "{%s}" % t["s"] if t["k"] == "ph" else ("".join(t["text"]) if t["k"] == "num" else t["s"])
+                txt.append((" " if (t["b"] and i > 0) else "") + sp)
+            out.append("        " + "".join(txt) + "\n")
+    out.append("    }\n" + ("    }\n" if asg else ""))
+    return "".join(out)
+
+
 def dir_arg(it):
     return str(it["n"]) if it["e"]["k"] == "none" else genexpr.render(it["e"])
 
@@ -531,7 +565,7 @@ def _render_program(P, rule_order=None, case=None, instr_renderer=None):
         name, sub = key
         out.append("%s %s\n{\n" % ("#subruledef" if sub else "#ruledef", name))
         for r in blocks[key]:
-            out.append("    %s => %s\n" % (render_pattern(r["pat"]), genexpr.render(r["prod"])))
+            out.append(render_rule(r))
         out.append("}\n")
     for it in P["items"]:
         k = it["k"]
@@ -752,6 +786,31 @@ def gen_cascade_isa(rng):
                       "prod": concat([numlit("0xee"), var("a")])})
         rules.append({"block": "cpu", "sub": False, "pat": [_lit("call"), {"p": "ws"}, {"p": "par", "name": "t", "ty": "sub", "n": 0, "sub": "tgt"}],
                       "prod": concat([numlit("0x50"), var("t")])})
+    # the same line with a register spelled literally in one rule and through a sub-rule block in another
+    # (equal numbers of literal characters: both are candidates, the smaller valid encoding wins)
+    if rng.random() < 0.4:
+        rules.append({"block": "regs", "sub": True, "pat": [_lit("a")], "prod": numlit("0x0")})
+        rules.append({"block": "regs", "sub": True, "pat": [_lit("b")], "prod": numlit("0x1")})
+        rules.append({"block": "cpu", "sub": False, "pat": [_lit("addr"), {"p": "ws"}, _lit("a"), _lit(","), {"p": "ws"}, _par("v", "u", 16)],
+                      "prod": concat([numlit("0xa0"), var("v")])})
+        rules.append({"block": "cpu", "sub": False,
+                      "pat": [_lit("addr"), {"p": "ws"}, {"p": "par", "name": "r", "ty": "sub", "n": 0, "sub": "regs"}, _lit(","), {"p": "ws"}, _par("v", "u", 8)],
+                      "prod": concat([numlit("0x1"), var("r"), var("v")])})
+    # a macro (asm block) competing with a plain, much larger rule for the same line
+    if "assert" in fams and rng.random() < 0.4:
+        rules.append({"block": "cpu", "sub": False, "pat": [_lit("far"), {"p": "ws"}, _par("a")],
+                      "prod": {"k": "asm", "assigns": [], "lines": [
+                          {"k": "instr", "name": "", "toks": [tok("id", "jmp", True), ph("a", True)]} for _ in range(rng.choice([2, 3, 4]))]}})
+        rules.append({"block": "cpu", "sub": False, "pat": [_lit("far"), {"p": "ws"}, _par("a")],
+                      "prod": concat([numlit("0x99"), {"k": "sshort", "e": var("a"), "n": numlit("96")}])})
+        # a parameterless table whose lines jump to a label INSIDE the block (the block's own passes are needed to
+        # settle it), next to a larger plain rule for the same line
+        nj = rng.choice([2, 3, 4])
+        lines = [{"k": "instr", "name": "", "toks": [tok("id", "jmp", True), tok("id", "e", True)] +
+                  ([tok("op", "+", True), num_tok(rng, j, True, "dec")] if j else [])} for j in range(nj)]
+        lines.append({"k": "label", "name": "e", "toks": []})
+        rules.append({"block": "cpu", "sub": False, "pat": [_lit("tbl")], "prod": {"k": "asm", "assigns": [], "lines": lines}})
+        rules.append({"block": "cpu", "sub": False, "pat": [_lit("tbl")], "prod": numlit("0xff" + "00" * 12)})
     # two operands: the second one's text is read in the instruction's scope, not the rule's
     rules.append({"block": "cpu", "sub": False, "pat": [_lit("mvi"), {"p": "ws"}, _par("v", "u", 8), _lit(","), {"p": "ws"}, _par("a")],
                   "prod": concat([numlit("0x90"), var("v"), {"k": "sshort", "e": var("a"), "n": numlit("8")}])})
@@ -781,15 +840,23 @@ def gen_cascade_program(rng, isa=None):
         for nm in ("a", "v", "r"):
             if nm not in labels and rng.random() < 0.65:
                 items.append({"k": "const", "lvl": 0, "name": nm, "e": {"k": "num", "text": list(str(rng.choice([0, 5, 200])))}})
-    casc = [m for m in isa["mnemonics"] if m in ("ld", "jmp", "br", "adds", "jr", "sel", "zj")]
+    casc = [m for m in isa["mnemonics"] if m in ("ld", "jmp", "br", "adds", "jr", "sel", "zj", "far")]
     for i in range(rng.randrange(3, 16)):
         c = rng.random()
         if pending and c < 0.25:
             items.append({"k": "label", "lvl": 0, "name": pending.pop()})
         elif c < 0.7:
-            m = rng.choice(casc + casc + ["nop", "ldi", "mvi"] + (["call", "call"] if "call" in isa["mnemonics"] else []))
+            m = rng.choice(casc + casc + ["nop", "ldi", "mvi"] + (["call", "call"] if "call" in isa["mnemonics"] else [])
+                           + (["addr", "addr"] if "addr" in isa["mnemonics"] else [])
+                           + (["tbl", "tbl"] if "tbl" in isa["mnemonics"] else []))
             if m == "nop":
                 toks = [tok("id", "nop", True)]
+            elif m == "tbl":
+                toks = [tok("id", "tbl", True)]
+            elif m == "addr":
+                toks = [tok("id", "addr", True), tok("id", rng.choice(["a", "a", "b"]), True), tok("op", ",", False)] + \
+                    (name_tokens(rng.choice(labels), True) if rng.random() < 0.6 else [num_tok(rng, rng.choice([0, 5, 255, 256, 300]), True)])
+                toks[1]["lit"] = True
             elif m == "call":
                 ref = name_tokens(rng.choice(labels), True) if rng.random() < 0.85 else [num_tok(rng, rng.choice([0, 200, 256, 70000]), True)]
                 if rng.random() < 0.3:
